@@ -94,6 +94,24 @@ def rebuild(toks):
     return T.SStr(parts)
 
 
+def atom_id_family(I, lines, upto):
+    """mol2 atom records: the id token (first token of an atom line) replaced by another in-range id, zero, or a too large one.
+    Atom records are positional in molli's reader, so the result must be an exception or the very same molecule."""
+    fam = []
+    in_atoms = False
+    for k, ln in enumerate(lines[:upto]):
+        txt = ln if isinstance(ln, str) else "".join(p_ for p_ in ln.parts if isinstance(p_, str))
+        if txt.startswith("@<TRIPOS>"):
+            in_atoms = txt.strip() == "@<TRIPOS>ATOM"
+            continue
+        if in_atoms:
+            for new in ("1", "2", "0", "3"):
+                toks = tokens_of(I, ln)
+                if toks and not (isinstance(toks[0], str) and toks[0] == new):
+                    fam.append(("token", k, 0, new))
+    return fam
+
+
 def token_family(I, lines, upto):
     fam = []
     for k, ln in enumerate(lines[:upto]):
@@ -134,6 +152,8 @@ def unit(fmt, tokens=False):
         # token corruption: every whitespace-separated token of every line of the first molecule replaced by a foreign symbol,
         # a bare integer, and a malformed number
         fam = token_family(I, lines, len(lines) if V.tier == "thorough" else len(lines) // 2) if tokens else damage_family(len(lines))
+        if tokens and fmt == "mol2":
+            fam = fam + atom_id_family(I, lines, len(lines))
         d = V.choose(fam, "damage")
         V.witness(lambda ev: {"op": "damage", "format": fmt, "kind": d[0], "line": d[1], "nlines": len(lines), "token": d[2] if tokens else None,
                               "new": d[3] if tokens else None, "signature": f"damage/{fmt}"})
@@ -189,8 +209,8 @@ def _mol2_attr(V):
              "@<TRIPOS>ATOM\n",
              T.SStr(["1 C1 ", ft(x[0]), " ", ft(x[1]), " ", ft(x[2]), " C.3 1 UNL 0.0\n"]),
              T.SStr(["2 O1 ", ft(x[3]), " ", ft(x[4]), " ", ft(x[5]), " O.3 1 UNL 0.0\n"]),
-             "@<TRIPOS>UNITY_ATOM_ATTR\n", "1 1\n", "charge 0\n", "2 2\n", "charge -1\n", "note x\n",
              "@<TRIPOS>BOND\n", "1 1 2 1\n",
+             "@<TRIPOS>UNITY_ATOM_ATTR\n", "1 1\n", "charge 0\n", "2 2\n", "charge -1\n", "note x\n",
              "@<TRIPOS>UNITY_BOND_ATTR\n", "1 1\n", "order 1\n"]
     k = V.choose(list(range(len(lines) + 1)), "truncate-after-line")
     V.witness(lambda ev: {"op": "attr-truncation", "line": k, "signature": "attr-truncation"})
@@ -213,7 +233,10 @@ def _mol2_attr(V):
         return
     got = summarize(I, out.value.items)
     V.ensure("attr/truncated-text-is-rejected-or-complete", z3.BoolVal(all(g["n"] == 2 and g["nb"] == 1 for g in got) and len(got) <= 1))
-    if k == len(lines) and len(got) == 1:
-        al = out.value.items[0].fields["_atoms"].items
-        V.ensure("attr/whole-text-read-with-its-attributes", z3.BoolVal(len(al) == 2 and "charge" in al[0].fields["attrib"].keys and
-                                                                        set(al[1].fields["attrib"].keys) == {"charge", "note"}))
+    # attribute records are content: a molecule that is returned carries the attributes the text assigns to its atoms
+    # (atom 2's "note"; "charge" is consumed by the molecule constructor and not compared)
+    # (a cut BEFORE the optional attribute section leaves a well-formed file without attributes: undetectable, like a cut inside a number;
+    #  once the section header is there, its records are part of the molecule)
+    hdr = lines.index("@<TRIPOS>UNITY_ATOM_ATTR\n")
+    has_note = all("note" in m_.fields["_atoms"].items[1].fields["attrib"].keys for m_ in out.value.items if len(m_.fields["_atoms"].items) == 2)
+    V.ensure("attr/returned-molecule-has-the-attributes-of-the-text", z3.BoolVal(bool(has_note) or k <= hdr))
